@@ -8,6 +8,7 @@ mod progrun;
 mod streams;
 mod proggen;
 mod watch;
+mod render;
 
 
 fn main() {
@@ -45,6 +46,7 @@ fn main() {
         "lex" => streams::lex(&mut rng, count, &mut emit),
         "region" => streams::region(&mut rng, count, &mut emit),
         "diag" => streams::diag(&mut rng, count, &mut emit),
+        "render" => render::render(&mut rng, count, &mut emit),
         "anytext" => streams::anytext(&mut rng, count, &mut emit),
         "literal" => streams::literal(&mut rng, count, &mut emit),
         "table" => streams::table(&mut rng, count, &mut emit),
